@@ -1429,6 +1429,11 @@ package stun
 //@   assert forall(k, 0, len(m.Attributes), d.Attributes[k].Length == len(m.Attributes[k].Value) && len(d.Attributes[k].Value) == len(m.Attributes[k].Value), vpos(WLens(m), k))
 //@   assert forall(k, 0, len(m.Attributes), m.Attributes[k].Length == len(m.Attributes[k].Value), vpos(WLens(m), k))
 //@   assert forall(k, 0, len(m.Attributes), m.Attributes[k].Type == d.Attributes[k].Type && m.Attributes[k].Length == d.Attributes[k].Length && len(m.Attributes[k].Value) == len(d.Attributes[k].Value))
+//@   assert WireVal(m)
+//@   assert forall(k, 0, len(m.Attributes), region(d.Attributes[k].Value) == region(d.Raw) && off(d.Attributes[k].Value) == off(d.Raw) + vpos(WLens(m), k) + 4, vpos(WLens(m), k))
+//@   assert forall(k, 0, len(m.Attributes), forall(j, 0, len(m.Attributes[k].Value), d.Attributes[k].Value[j] == d.Raw[vpos(WLens(m), k) + 4 + j]), vpos(WLens(m), k))
+//@   assert forall(k, 0, len(m.Attributes), forall(j, 0, len(m.Attributes[k].Value), d.Raw[vpos(WLens(m), k) + 4 + j] == m.Raw[vpos(WLens(m), k) + 4 + j]), vpos(WLens(m), k))
+//@   assert forall(k, 0, len(m.Attributes), forall(j, 0, len(m.Attributes[k].Value), d.Attributes[k].Value[j] == m.Attributes[k].Value[j]), vpos(WLens(m), k))
 //@   assert forall(k, 0, len(m.Attributes), bytes_eq(m.Attributes[k].Value, d.Attributes[k].Value))
 //@   ensures result
 
